@@ -718,6 +718,9 @@ class Interp:
             yield from ops.call_method(self, st, f.recv, f.name, args, kwargs)
         elif isinstance(f, ExcClass):
             yield st, Exc(f.name, args)
+        elif isinstance(f, SV) and getattr(f.ty, 'callable', False):
+            m = f.ty.attrs['__call__']
+            yield from m.fn(self, st, [f] + list(args), kwargs)
         else:
             raise Unsupported(f'call of {f!r} ({ast.unparse(node) if node else ""})')
 
@@ -933,6 +936,10 @@ class Interp:
             yield s, r
 
     def concrete_items(self, st, v):
+        from .models import MapVal
+        if isinstance(v, MapVal) and hasattr(v.f, 'pure'):
+            src = self.concrete_items(st, v.over)
+            return None if src is None else [v.f.pure(x) for x in src]
         if isinstance(v, tuple):
             return list(v)
         if isinstance(v, PyRef):
@@ -1310,7 +1317,7 @@ class Interp:
                 yield s, ('raise', itv.exc)
                 continue
             items = self.concrete_items(s, itv)
-            if items is not None and (spec is None or spec.unroll):
+            if items is not None:
                 yield from self.unroll(node, s, items, 0)
                 continue
             if spec is None:
